@@ -611,13 +611,14 @@ def _work(item):
     return st, dict(_COUNTS)
 
 
-def run_contained(cfgs, depth, d0, split, chunk=400):
+def run_contained(cfgs, depth, d0, split):
     """hist.run_parallel, except that (a) the shallow part is also executed inside pool workers (a crash
     at depth 1 is contained and reported), and (b) a violation on one shallow history does not stop the
     exploration below the other prefixes."""
     total = hist.Stats()
     counts = {}
     crashes = []
+    samples = []
     sd = min(split, depth)
 
     def drain(items):
@@ -630,6 +631,8 @@ def run_contained(cfgs, depth, d0, split, chunk=400):
                 continue
             st, cnt = r
             total.merge(st)
+            if st.samples and len(samples) < 200:
+                samples.append((list(item[1]), st.samples[-1]))
             for k, v in cnt.items():
                 counts[k] = counts.get(k, 0) + v
             done.setdefault(item[1], set()).update(h for h, info in st.violations)
@@ -645,14 +648,14 @@ def run_contained(cfgs, depth, d0, split, chunk=400):
                         items.append(("deep", cfg, p, depth, d0))
         _CUR[0] = None
         drain(items)
-    return total, counts, crashes
+    return total, counts, crashes, samples
 
 
 def _passes(ctx):
     # (name, alphabet level, max ops outside the core alphabet per history, depth, d0)
     if ctx.quick:
         return [("full1", 3, ANY, 1, 1), ("wide2", 2, 1, 2, 2), ("core3", 0, 0, 3, 3)]
-    return [("full2", 3, 1, 2, 2), ("narrow3", 1, 1, 3, 3), ("deep", 0, 0, 6, 2)]
+    return [("full2", 3, 1, 2, 2), ("narrow3", 1, 1, 3, 3), ("deep", 0, 0, 5, 2)]
 
 
 def run(ctx):
@@ -663,19 +666,19 @@ def run(ctx):
     maxd = 0
     for pname, lvl, budget, depth, d0 in _passes(ctx):
         cfgs = [(lvl, budget, m) for m in MEMS]
-        st, counts, crashes = run_contained(cfgs, depth, d0, split=1)
+        st, counts, crashes, samples = run_contained(cfgs, depth, d0, split=1)
         ctx.log("pass %s: depth=%d d0=%d states=%d transitions=%d merged=%d violations=%d crashes=%d" % (
             pname, depth, d0, st.states, st.transitions, st.merged, len(st.violations), len(crashes)))
         for k, v in sorted(counts.items()):
-            ctx.count(pname + ":" + k, v)
+            ctx.count(k, v)
         for h, info in st.violations:
             ctx.violation(_sig(info), {"history": [list(o) for o in h], "info": info, "cfg": info.get("cfg")})
         for item, cr, last in crashes:
             ctx.violation({"kind": "crash", "pass": pname},
                           {"cfg": list(item[1]), "prefix": [list(o) for o in item[2]], "last_history": last,
                            "how": cr.describe(), "confirmed": cr.confirmed})
-        for s in st.samples[:4]:
-            ctx.sample({"pass": pname, "history": s})
+        for c, h in samples:
+            ctx.sample({"pass": pname, "cfg": c, "history": h})
         cov_pass[pname] = {"alphabet": ["core", "narrow", "wide", "full"][lvl], "max_depth": depth,
                            "unmerged_depth_d0": d0,
                            "max_noncore_ops_per_history": "unbounded" if budget == ANY else budget,
